@@ -159,11 +159,20 @@ func (p *c20Priv) setupIBC() {
 	x.subst2, err = e.createClient(ibcClientState(x.ra2, 40, "ok"), ibcRaTime(40), ibcRoot(40), e.valHash(0))
 	p.must("create substitute client of r2", err)
 	// ---- a frozen client of a foreign chain and its active substitute
-	const foreign = "dymveriffar_7780-1"
-	x.subject, err = e.createClient(ibcClientState(foreign, 10, "ok"), ibcRaTime(10), ibcRoot(10), e.valHash(0))
-	p.must("create subject client", err)
-	x.subst, err = e.createClient(ibcClientState(foreign, 20, "ok"), ibcRaTime(20), ibcRoot(20), e.valHash(0))
+	x.subst, err = e.createClient(ibcClientState(c20ForeignChain, 20, "ok"), ibcRaTime(20), ibcRoot(20), e.valHash(0))
 	p.must("create substitute client", err)
+	p.fixSubject()
+}
+
+const c20ForeignChain = "dymveriffar_7780-1"
+
+// fixSubject: a new client of the foreign chain, frozen through the client keeper (a recovered client
+// has the substitute's height and cannot be recovered from the same substitute again)
+func (p *c20Priv) fixSubject() {
+	x, a, f, t := p.ibc, p.f.App, p.f, p.s.t
+	var err error
+	x.subject, err = x.e.createClient(ibcClientState(c20ForeignChain, 10, "ok"), ibcRaTime(10), ibcRoot(10), x.e.valHash(0))
+	p.must("create subject client", err)
 	cs, ok := a.IBCKeeper.ClientKeeper.GetClientState(f.Ctx, x.subject)
 	tm, isTm := cs.(*ibctm.ClientState)
 	if !ok || !isTm {
@@ -196,4 +205,56 @@ func (p *c20Priv) fraudMsg(s sdk.AccAddress) (sdk.Msg, error) {
 	}
 	return &rollapptypes.MsgRollappFraudProposal{Authority: s.String(), RollappId: p.ibc.ra2, FraudHeight: c20FraudHeight,
 		FraudRevision: ra.GetRevisionForHeight(c20FraudHeight).Number}, nil
+}
+
+const c20RecoverURL = "/ibc.core.client.v1.MsgRecoverClient"
+
+// genRecover: MsgRecoverClient on whatever client is frozen right now: from two unprivileged signers,
+// then from the authority for real; a recovered fixture client is replaced by a new frozen one
+func (p *c20Priv) genRecover(run func(string) string) {
+	g := p.s.r.Rng
+	subj, _ := p.recoverPair()
+	run(fmt.Sprintf("ext %s a%d", c20RecoverURL, g.Intn(c20Actors)))
+	run(fmt.Sprintf("ext %s m%d", c20RecoverURL, g.Intn(len(p.mods))))
+	before := p.stats["extpos:"+c20RecoverURL]
+	run("ext " + c20RecoverURL + " gov")
+	if p.stats["extpos:"+c20RecoverURL] > before && subj == p.ibc.subject {
+		run("fix subject")
+	}
+}
+
+// execExtGov: `ext <url> gov` — the governance account's own message, delivered for real.  The model
+// has no verdict on content (observation `na`); monitors: the dry run on a discarded branch predicts
+// the outcome, a rejected message changes nothing.
+func (p *c20Priv) execExtGov(t *c20ExtTarget) string {
+	r := p.s.r
+	p.nonce++
+	gm, err := p.extBuild(*t, p.gov, p.nonce)
+	if err != nil {
+		return "bad-op"
+	}
+	valid := p.dry(gm) == nil
+	before := p.f.StoreDigest()
+	_, derr := p.deliver(gm)
+	after := p.f.StoreDigest()
+	replay := append([]string{}, p.s.trace...)
+	if derr != nil && before != after {
+		r.Violate("C20/no-state-change/"+t.url+"/state-changed-by-failed-message", fmt.Sprintf("authority-signed; digest %s -> %s, error %v", before, after, derr), replay...)
+	}
+	if valid != (derr == nil) {
+		r.Hit("ext/authority-run-differs-from-dry-run/" + t.url)
+	}
+	obs := "rej"
+	if derr == nil {
+		obs = "ok"
+		p.stats["extpos:"+t.url]++
+		p.s.extHit[t.url] = true
+		p.s.nontr = true
+		if before == after {
+			r.Hit("ext/authority/accepted-without-state-change")
+		}
+	}
+	r.Hit("ext/authority/" + obs)
+	p.s.seq = append(p.s.seq, "ext:"+t.url+":gov:"+obs)
+	return "na"
 }
